@@ -131,17 +131,17 @@ def r3_multiplicity_and_r6_strip(ctx, rule):
         ctx.bad(rule, RP, 'multiplicity n defined as %s' % ndefs, "n is the count prefix (first blank-separated field after "
                 "leading blanks) in --prefixcount mode and 1 otherwise", facts, ystmt)
     # transformations of the yielded value
-    line_var = None
+    line_vars = set()
     for nm, lst in stores.items():
         if any(v is not None and isinstance(v, ast.Call) and isinstance(v.func, ast.Attribute) and v.func.attr == 'readline' for s, v in lst):
-            line_var = nm
+            line_vars.add(nm)
     allowed = []
     for s, v in stores.get(yv, []):
         txt = U(v) if v is not None else None
         conds = [(U(t), p) for t, p in path_conditions(mod, s)]
         kind = None
         if v is not None and isinstance(v, ast.Call) and isinstance(v.func, ast.Attribute) and v.func.attr == 'rstrip' \
-                and U(v.func.value) == line_var and v.args and isinstance(const(v.args[0]), str) and set(const(v.args[0])) <= set('\r\n'):
+                and U(v.func.value) in line_vars and v.args and isinstance(const(v.args[0]), str) and set(const(v.args[0])) <= set('\r\n'):
             kind = 'eol'
         elif txt in ("' '.join(%s.lstrip().split(' ')[1:])" % yv, "%s.lstrip().partition(' ')[2]" % yv,
                      "%s.lstrip().split(' ', 1)[1]" % yv if False else "' '.join(%s.lstrip().split(' ')[1:])" % yv) \
@@ -177,13 +177,21 @@ def r4_skip_paths(ctx, rule):
     fn = ctx.fn(RP)
     mod = ctx.repo.modules[RP.partition('::')[0]]
     loops = [n for n in walk_local(fn) if isinstance(n, ast.While)]
+    # the read loop is the outermost one; a loop inside it that only gathers the pieces of ONE physical line (the codecs reader
+    # cuts a line at more characters than CR / LF) belongs to reading that line
+    nested = {id(x) for l in loops for b in l.body for x in ast.walk(b) if isinstance(x, ast.While)}
+    loops = [l for l in loops if id(l) not in nested]
     if len(loops) != 1:
         ctx.unk(rule, RP, 'read loop not found')
         return
     lp = loops[0]
+    inner_breaks = {id(x) for b in lp.body for l2 in ast.walk(b) if isinstance(l2, (ast.While, ast.For)) for z in l2.body for x in ast.walk(z)
+                    if isinstance(x, ast.Break)}
     bad = False
     n = 0
     for st in walk_stmts(lp.body):
+        if id(st) in inner_breaks:
+            continue
         if isinstance(st, (ast.Return, ast.Break, ast.Raise)):
             n += 1
             conds = [(U(t), p) for t, p in path_conditions(mod, st, stop=lp)]
@@ -308,6 +316,44 @@ def _separators(ctx, rule):
     return c07.r1_separator_inclusion(ctx, rule)
 
 
+def r15_physical_lines(ctx, rule):
+    """One line of the training file is one record.  A reader opened with codecs.open ends readline() at every character
+    str.splitlines knows (A4: LF, CR, VT, FF, FS, GS, RS, NEL, U+2028, U+2029); only CR / LF are line ends of a password list, the
+    others are characters of a (to be rejected) password.  So either the file is opened with the builtin open (which splits at CR /
+    LF only), or the pieces readline() returns are joined until one ends in CR / LF.  Without that a plain line `ab<FF>cd` is cut in
+    two and `cd` is trained, while its $HEX[] spelling is rejected as a whole - the defect repaired by 1925658."""
+    iq = TFI + 'TrainerFileInput.__init__'
+    ifn = ctx.fn(iq)
+    fn = ctx.fn(RP)
+    opens = [c for c in calls_in(ifn) if call_name(c) in ('codecs.open', 'open', 'io.open')]
+    if len(opens) != 1:
+        ctx.unk(rule, iq, 'expected one open call in the reader (found %d)' % len(opens))
+        return
+    if call_name(opens[0]) != 'codecs.open':
+        nl = kwarg(opens[0], 'newline', 6)
+        if nl is None or const(nl) in ('', '\n', None):
+            ctx.ok(rule, iq, 'builtin text reader: lines end at CR / LF only')
+        else:
+            ctx.unk(rule, iq, 'reader opened with newline=%s' % U(nl))
+        return
+    reads = [c for c in calls_in(fn) if isinstance(c.func, ast.Attribute) and c.func.attr == 'readline']
+    joined = False
+    for lp in [x for x in walk_local(fn) if isinstance(x, ast.While)]:
+        t = U(lp.test)
+        gathers = any(isinstance(st, ast.AugAssign) and isinstance(st.op, ast.Add) and isinstance(st.target, ast.Name)
+                      and isinstance(st.value, ast.Name) for st in walk_stmts(lp.body))
+        reads_in = any(isinstance(c.func, ast.Attribute) and c.func.attr == 'readline' for c in calls_in(lp))
+        ends = ("not in '\\r\\n'" in t or "not in '\\n\\r'" in t or "endswith" in t)
+        if gathers and reads_in and ends:
+            joined = True
+    if joined:
+        ctx.ok(rule, RP, 'codecs reader, pieces joined until one ends in CR / LF: one physical line is one record', {'readline_calls': len(reads)})
+    else:
+        ctx.bad(rule, RP, 'codecs readline() used as the record boundary', 'the codecs reader also cuts at FF, FS, GS, RS, VT, NEL, U+2028 and '
+                'U+2029: a plain password containing one of them is split and its tail is trained as a password of its own; the $HEX[] '
+                'spelling of the same password is rejected as a whole', None, reads[0] if reads else fn, firm=True)
+
+
 def r14_counters_use_the_multiplicity(ctx, rule):
     """A collapsed line `n password` stands for n lines: once the multiplicity is known, whatever the reader counts for that line -
     a password accepted, an encoding error - it counts n times.  (Seed C19-db: the $HEX[] failure branch counted 1: config.ini of
@@ -420,7 +466,7 @@ def _shared_rule(mod, name, **kw):
 def rules(tier):
     return [('C19.R1', r1_three_passes), ('C19.R2', r2_password_count), ('C19.R3', r3_multiplicity_and_r6_strip),
             ('C19.R4', r4_skip_paths), ('C19.R5', r5_reader_encoding_and_eol),
-            ('C19.R6', _validated), ('C19.R7', r7_autodetect), ('C19.R8', _separators), ('C19.R9', r9_side_lists_are_plain), ('C19.R12', r12_control_characters_rejected), ('C19.R14', r14_counters_use_the_multiplicity),
+            ('C19.R6', _validated), ('C19.R7', r7_autodetect), ('C19.R8', _separators), ('C19.R9', r9_side_lists_are_plain), ('C19.R12', r12_control_characters_rejected), ('C19.R14', r14_counters_use_the_multiplicity), ('C19.R15', r15_physical_lines),
             # --prefixcount / --encoding reach the readers under their own keys
             ('C19.R10', _shared_rule('plumbing', 'option_round_trip')),
             # C19-ca: getattr(file_input, 'num_encoding_error', 0): the counter of skipped lines is always recorded as 0
